@@ -82,14 +82,16 @@ func VerifC20_SoftEqual() {
 	x := string(zzverif.Bytes("x", n2))
 	zzverif.Assume(t == "" || verifIsTypeName(t))
 	zzverif.Assume(x == "" || verifIsTypeName(x))
-	// "comment" is the pseudo type of annotation nodes; whether the wildcard
-	// types (enum/mixed/any) relate to it is not documented: unspecified here.
-	zzverif.Assume(!((t == "comment" && verifFamily(x) == 3) || (x == "comment" && verifFamily(t) == 3)))
 	zzverif.Known("C20-null-array-asymmetry", (t == "null" && x == "array") || (t == "array" && x == "null"))
 	got := SchemaType(t).IsEqualSoft(SchemaType(x))
 	back := SchemaType(x).IsEqualSoft(SchemaType(t))
 	zzverif.Assert(got == back, "IsEqualSoft is symmetric")
-	zzverif.Assert(got == verifSoftEqual(t, x), "IsEqualSoft relates exactly the documented families")
+	// "comment" is the pseudo type of annotation nodes; whether the wildcard
+	// types (enum/mixed/any) relate to it is not documented: the family
+	// assertion leaves that pair unspecified (symmetry above still applies).
+	if !((t == "comment" && verifFamily(x) == 3) || (x == "comment" && verifFamily(t) == 3)) {
+		zzverif.Assert(got == verifSoftEqual(t, x), "IsEqualSoft relates exactly the documented families")
+	}
 	if verifFamily(t) != 0 {
 		zzverif.Assert(SchemaType(t).IsEqualSoft(SchemaType(t)), "IsEqualSoft is reflexive on defined types")
 	}
@@ -159,6 +161,45 @@ func VerifC20_Guess() {
 	zzverif.Expect("classified", "unclassified")
 	n := zzverif.IntRange("len", 0, zzverif.Bound("N", 4, 6))
 	b := zzverif.Bytes("b", n)
+	order := zzverif.IntRange("mapOrder", 0, 7)
+	want, ok := verifGuess(b)
+	zzverif.SetMapOrder(order)
+	got, err := GuessSchemaType(b)
+	zzverif.SetMapOrder(0)
+	if ok {
+		zzverif.Reach("classified")
+		zzverif.Assert(err == nil, "GuessSchemaType classifies what the scanner's classifier classifies")
+		zzverif.Assert(string(got) == want, "GuessSchemaType names the same kind as json.Guess")
+	} else {
+		zzverif.Reach("unclassified")
+	}
+}
+
+// VerifC20_GuessTemplates: literal shapes longer than the exhaustive bound:
+// numbers with a fraction and/or an exponent (d.d, d.de[+-]d, de d, -d.dd),
+// quoted strings containing dots, digits and 'e' - all digits symbolic.
+func VerifC20_GuessTemplates() {
+	zzverif.Expect("classified", "unclassified")
+	var b []byte
+	d := func(n string) byte { return zzverif.Digit(n) }
+	switch zzverif.IntRange("shape", 0, 7) {
+	case 0:
+		b = []byte{d("a"), '.', d("b"), 'e', d("c")}
+	case 1:
+		b = []byte{d("a"), '.', d("b"), d("c"), 'E', zzverif.OneOf("s", "+-"), d("e")}
+	case 2:
+		b = []byte{'-', d("a"), '.', d("b"), d("c")}
+	case 3:
+		b = []byte{d("a"), 'e', d("b")}
+	case 4:
+		b = []byte{'"', d("a"), '.', d("b"), '"'}
+	case 5:
+		b = []byte{'"', zzverif.OneOf("x", "ae."), zzverif.OneOf("y", "e.1"), zzverif.OneOf("z", "5e."), '"'}
+	case 6:
+		b = []byte{d("a"), d("b"), '.', d("c"), 'e', '-', d("e")}
+	default:
+		b = []byte{d("a"), '.', d("b"), d("c"), d("e")}
+	}
 	order := zzverif.IntRange("mapOrder", 0, 7)
 	want, ok := verifGuess(b)
 	zzverif.SetMapOrder(order)
